@@ -636,6 +636,7 @@ def shrink_candidates(case: dict, violation: dict):
     if len(base["graphs"]) > 1:
         c = copy.deepcopy(base)
         c["graphs"] = [[i for g in base["graphs"] for i in g]]
+        c.pop("graph_parents", None)
         c["schedule"] = None
         yield c
     for key, val in (("chunk", None), ("hide_cfr", False), ("stickiness", 0.0)):
